@@ -20,9 +20,14 @@ class ZoneWithDst(pydt.tzinfo):
         return "X"
 
 
-def mk_dt(v, zone="fixed"):
+def mk_dt(v, zone="fixed", fold=0):
     from dateutil.tz import tzoffset
     y, m, d, H, M, S, us, off = v
+    if zone.startswith("tzstr:"):
+        # a zone with summer time rules (POSIX TZ string, no database needed): the offset is what the zone says for this local
+        # time and this fold
+        from dateutil import tz
+        return pydt.datetime(y, m, d, H, M, S, us, tzinfo=tz.tzstr(zone[6:]), fold=fold)
     if off is None:
         tz = None
     elif zone == "dst":
@@ -94,7 +99,7 @@ class C16(fw.Prop):
 
             def impl():
                 from dlms_cosem import time as t
-                if off is not None and d.get("zone") != "dst":
+                if off is not None and d.get("zone") != "dst" and not d.get("zone", "").startswith("tzstr:"):
                     # the same instant written in another zone is encoded first: what a date-time encodes to depends on its own
                     # local fields and offset only, not on equal instants seen earlier
                     other = mk_dt(v).astimezone(pydt.timezone(pydt.timedelta(minutes=(off + 60 if off < 780 else off - 60))))
@@ -102,7 +107,7 @@ class C16(fw.Prop):
                         t.datetime_to_bytes(other, status_obj(st))
                     except Exception:  # noqa
                         pass
-                bs = t.datetime_to_bytes(mk_dt(v, d.get("zone", "fixed")), status_obj(st))
+                bs = t.datetime_to_bytes(mk_dt(v, d.get("zone", "fixed"), d.get("fold", 0)), status_obj(st))
                 if op == "enc":
                     return "ok " + fw.hx(bs)
                 dt2, st2 = t.datetime_from_bytes(bs)
@@ -124,6 +129,8 @@ class C16(fw.Prop):
                 try:
                     n = xdlms.DataNotification.from_bytes(apdu)
                     inside = "ok" if n.date_time is not None else "ok-without-date-time"
+                    if alone == "ok" and inside == "ok" and n.date_time != t.datetime_from_bytes(b)[0]:
+                        inside = "ok-another-date-time"
                 except Exception:  # noqa
                     inside = "refused"
                 return "ok dn" + ("" if alone == inside else f" date-time-alone:{alone} in-data-notification:{inside}")
@@ -203,6 +210,33 @@ class C16(fw.Prop):
             b = bytearray(base)
             b[9:11] = (dev % 65536).to_bytes(2, "big")
             yield mk({"op": "dn", "b": bytes(b).hex()})
+        for stb in range(256):
+            # every clock-status byte: the date-time of a data-notification is the one the codec decodes
+            b = bytearray(base)
+            b[11] = stb
+            if stb % 3 == 0:
+                b[9:11] = rng.choice([b"\x80\x00", b"\x00\x00", b"\xff\xc4", b"\x00\x3c"])
+            yield mk({"op": "dn", "b": bytes(b).hex()})
+        # zones with summer time: the repeated hour when it ends (fold 0 = still summer time, fold 1 = already normal time), the
+        # hours around it and around its start
+        zones = {"CET-1CEST,M3.5.0,M10.5.0/3": [(2021, 10, 31), (2021, 3, 28), (2024, 10, 27)],
+                 "EST5EDT,M3.2.0,M11.1.0": [(2021, 11, 7), (2021, 3, 14)],
+                 "AEST-10AEDT,M10.1.0,M4.1.0/3": [(2021, 4, 4), (2021, 10, 3)],
+                 "NZST-12NZDT,M9.5.0,M4.1.0/3": [(2022, 4, 3)]}
+        for spec, days in zones.items():
+            for (y, m, dd) in days:
+                for H in (0, 1, 2, 3, 4):
+                    for M in (0, 30, 59):
+                        for fold in (0, 1):
+                            z = "tzstr:" + spec
+                            probe = mk_dt([y, m, dd, H, M, 7, 0, 0], z, fold)
+                            off = probe.utcoffset()
+                            if off is None:
+                                continue
+                            v = [y, m, dd, H, M, 7, 120000, int(off.total_seconds() // 60)]
+                            st = rng.choice([0, 0x80, 0x08])
+                            yield mk({"op": "enc", "v": v, "st": st, "zone": z, "fold": fold})
+                            yield mk({"op": "rt", "v": v, "st": st, "zone": z, "fold": fold})
 
 
 PROP = C16()
